@@ -182,8 +182,52 @@ M('c17-accept-state-on-send-error', 'C17', 'R1', WS,
         self._state = _WebSocketState.ACCEPTED
 """)
 
+# _send(): a failed ASGI send marks the socket CLOSED only when the error was recognised as a connection loss
+# (seeded s4-c17-1 = two cooperating edits; EACH half alone is already a break - checked with the seed's demo.py on a
+# pure-Python copy: half A hands every error back, so `if translated_ex:` always passes; half B marks CLOSED
+# unconditionally and then does `raise None from ex` - so both halves are operators of their own).
+_SEND_GUARDED = """            if translated_ex:
+                # NOTE(vytas): Mark WebSocket as closed if we catch an error
+                #   upon sending. This is useful when not using the buffered
+                #   receiver, and not receiving anything at the given moment.
+                self._state = _WebSocketState.CLOSED
+                if isinstance(translated_ex, errors.WebSocketDisconnected):
+                    self._close_code = translated_ex.code
+
+"""
+_SEND_HOISTED = """
+            # NOTE(vytas): Mark WebSocket as closed if we catch an error
+            #   upon sending. This is useful when not using the buffered
+            #   receiver, and not receiving anything at the given moment.
+            self._state = _WebSocketState.CLOSED
+            if isinstance(translated_ex, errors.WebSocketDisconnected):
+                self._close_code = translated_ex.code
+
+            if translated_ex is not ex:
+"""
+_TRANSLATE_TAIL = "            return errors.WebSocketDisconnected(close_code)\n\n        return None\n"
+M2('c17-send-any-error-closes', 'C17', 'R1', [
+    {'file': WS, 'old': _SEND_GUARDED, 'new': _SEND_HOISTED},
+    {'file': WS, 'old': _TRANSLATE_TAIL, 'new': "            return errors.WebSocketDisconnected(close_code)\n\n        return ex\n"},
+])
+M('c17-send-closed-hoisted-out-of-guard', 'C17', 'R1', WS, _SEND_GUARDED, _SEND_HOISTED)
+M('c17-translate-never-none', 'C17', 'R1', WS, _TRANSLATE_TAIL,
+  "            return errors.WebSocketDisconnected(close_code)\n\n        return ex\n")
+M('c17-translate-unknown-error-is-disconnect', 'C17', 'R1', WS, _TRANSLATE_TAIL,
+  "            return errors.WebSocketDisconnected(close_code)\n\n        return errors.WebSocketDisconnected()\n")
+M('c17-send-closed-before-classification', 'C17', 'R1', WS,
+  "            translated_ex = self._translate_webserver_error(ex)\n",
+  "            self._state = _WebSocketState.CLOSED\n            translated_ex = self._translate_webserver_error(ex)\n")
+M('c17-send-closed-guard-negated', 'C17', 'R1', WS,
+  """            if translated_ex:
+                # NOTE(vytas): Mark WebSocket as closed if we catch an error""",
+  """            if translated_ex is None:
+                self._state = _WebSocketState.CLOSED
+            if translated_ex:
+                # NOTE(vytas): Mark WebSocket as closed if we catch an error""")
+
 # ------------------------------------------------------------------ R2
-M('c17-handler-uses-raw-send', 'C17', 'R2', APP,
+M('c17-handler-uses-raw-send','C17', 'R2', APP,
   """                error,
                 code,
             )
